@@ -118,6 +118,7 @@ func H_C06_FixedAccept() {
 		wantPay.LE(nd.ZInt(balPay)),
 	)
 	nd.Assert("C06.accept-iff-reference", nd.Iff(err == nil, ref))
+	nd.Assert("C18.fixed-bid-accepted-iff-documented-preconditions-with-other-auctions-present", nd.Iff(err == nil, ref))
 	// C19: the reference ignores the bidder's bids in other auctions — they must not affect what the bidder may do here
 	nd.Assert("C19.bids-in-other-auctions-do-not-affect-acceptance", nd.Iff(err == nil, ref))
 	nd.Assert("C10.fixed-bid-accepted-only-if-allow-listed-in-this-auction", err != nil || allowed)
